@@ -72,6 +72,8 @@ pub enum Step {
     VarDeps(Ref),
     PassiveImpact(usize),
     ActiveImpact(usize),
+    /// `bdd.interpretations(handle, goal, goal_var, &[], &[])`: the path cubes towards a goal value
+    Cubes(Ref, bool, usize),
     Extra(XOp),
     RestartJson,
     RestartDb,
@@ -293,6 +295,17 @@ impl Obj {
                 let s = format!("passive({})={}", v % n, self.adf.bdd.passive_var_impact(Var(v % n), &ac));
                 Answer { sem: s.clone(), raw: s }
             }
+            Step::Cubes(r, goal, gv) => {
+                let t = self.resolve(*r);
+                let cubes = self.adf.bdd.interpretations(t, *goal, Var(gv % n), &[], &[]);
+                let s = format!(
+                    "cubes({:x},{goal},{})={:?}",
+                    self.tt(t)?,
+                    gv % n,
+                    cubes.iter().map(|(neg, pos)| (neg.iter().map(|v| v.value()).collect::<Vec<_>>(), pos.iter().map(|v| v.value()).collect::<Vec<_>>())).collect::<Vec<_>>()
+                );
+                Answer { raw: format!("{s}@{}", t.value()), sem: s }
+            }
             Step::ActiveImpact(v) => {
                 let ac = self.adf.ac.clone();
                 let s = format!("active({})={}", v % n, self.adf.bdd.active_var_impact(Var(v % n), &ac));
@@ -456,6 +469,7 @@ impl Scenario for History {
                 10 => Step::Paths(gen_ref(rng, n, extras)),
                 11 => Step::MaxDepth(gen_ref(rng, n, extras)),
                 12 => Step::VarDeps(gen_ref(rng, n, extras)),
+                13 if rng.chance(1, 2) => Step::Cubes(gen_ref(rng, n, extras), rng.chance(1, 2), rng.below(n as u64) as usize),
                 13 => {
                     if rng.chance(1, 2) {
                         Step::PassiveImpact(rng.below(n as u64) as usize)
@@ -574,7 +588,7 @@ impl Scenario for History {
                 if i > 0 && mutating_before {
                     nontrivial = nontrivial || prop == "C11";
                 }
-                if main.adf.bdd.nodes.len() > len_before || !matches!(step, Step::Paths(_) | Step::MaxDepth(_) | Step::VarDeps(_) | Step::PassiveImpact(_) | Step::ActiveImpact(_) | Step::FormulaCountsNaive | Step::FacetCountAc) {
+                if main.adf.bdd.nodes.len() > len_before || !matches!(step, Step::Paths(_) | Step::MaxDepth(_) | Step::VarDeps(_) | Step::Cubes(..) | Step::PassiveImpact(_) | Step::ActiveImpact(_) | Step::FormulaCountsNaive | Step::FacetCountAc) {
                     mutating_before = true;
                 }
 
@@ -774,6 +788,7 @@ fn answer_kind(step: &Step) -> &'static str {
         Step::FormulaCountsNaive | Step::FacetCountAc | Step::FacetCountGrounded => "counts",
         Step::Paths(_) | Step::MaxDepth(_) => "paths-depth",
         Step::VarDeps(_) | Step::PassiveImpact(_) | Step::ActiveImpact(_) => "dependencies",
+        Step::Cubes(..) => "cubes",
         Step::Extra(_) => "extra",
         Step::RestartJson | Step::RestartDb => "restart",
         Step::FixImport => "fix_import",
@@ -805,7 +820,7 @@ fn fresh_answer(case: &HistCase, i: usize) -> Result<Answer, String> {
     // extras are referred to by their ordinal; rebuilding all earlier extras keeps ordinals
     // aligned (they are part of what the question is about, not of the history under test)
     let needs_extras = match &case.steps[i] {
-        Step::Paths(r) | Step::MaxDepth(r) | Step::VarDeps(r) => matches!(r, Ref::Extra(_)),
+        Step::Paths(r) | Step::MaxDepth(r) | Step::VarDeps(r) | Step::Cubes(r, _, _) => matches!(r, Ref::Extra(_)),
         _ => false,
     };
     if needs_extras {
